@@ -1342,6 +1342,45 @@ def lexers_check(fns, table):
 
 
 # =====================================================================================
+# the Error enum: what the properties say about errors rests on how thiserror is told to derive source() / Display
+# =====================================================================================
+def errors_check():
+    """C09: `ExceedRecursiveLimit (for includes wrapped once per include level)`, C10: `Include{File{path}}`.  The wrapping is observable
+    through the variant structure AND through std::error::Error::source(): an `Include` / `File` variant keeps its inner error as
+    #[source] / #[from] and has a message of its own (not #[error(transparent)], which would forward source() past it)."""
+    failures, undecided = [], []
+    checked = 0
+    rel = 'sv-parser-error/src/lib.rs'
+    try:
+        raw = open(os.path.join(REPO, rel), encoding='utf-8').read()
+    except IOError:
+        return dict(failures=[], undecided=['sv-parser-error/src/lib.rs not found (anchor lost)'], checked=0)
+    m = re.search(r'pub\s+enum\s+Error\s*\{(.*?)\n\}', raw, re.S)
+    if not m:
+        return dict(failures=[], undecided=['enum Error not found (anchor lost)'], checked=0)
+    body = m.group(1)
+    variants = {}
+    for vm in re.finditer(r'((?:\s*#\[[^\]]*\]\s*)+)(\w+)\s*(\{[^}]*\}|\([^)]*\))?\s*,', body):
+        variants[vm.group(2)] = (vm.group(1), vm.group(3) or '', vm.start())
+    for name, props in (('Include', ['C09', 'C10', 'C08']), ('File', ['C10', 'C08'])):
+        checked += 1
+        if name not in variants:
+            undecided.append('Error::%s not found in enum Error (anchor lost)' % name)
+            continue
+        attrs, fields, pos = variants[name]
+        at = Dummy(rel, raw[:m.start(1) + pos].count('\n') + 2)
+        if re.search(r'#\[error\(\s*transparent\s*\)\]', attrs):
+            failures.append(fail('Error', 'C09.error.%s-is-a-level-of-its-own-in-the-source-chain' % name, 'Error::%s is #[error(transparent)]: Display and source() are forwarded to the inner error, the wrapping level disappears from the chain' % name, props, at))
+        elif not re.search(r'#\[(?:source|from)\]\s*(?:pub\s+)?\w+\s*:|\bsource\s*:', fields):
+            failures.append(fail('Error', 'C09.error.%s-keeps-its-cause-as-source' % name, 'Error::%s no longer marks its inner error as #[source] / #[from]' % name, props, at))
+    checked += 1
+    for name in ('ExceedRecursiveLimit', 'IncludeLine', 'Parse', 'Preprocess', 'ReadUtf8', 'DefineNotFound', 'DefineNoArgs', 'DefineArgNotFound'):
+        if not re.search(r'\b%s\b\s*[({,]' % name, body):
+            undecided.append('Error::%s not found in enum Error (anchor lost)' % name)
+    return dict(failures=failures, undecided=undecided, checked=checked)
+
+
+# =====================================================================================
 # assumed lexers: productions of the pp grammar whose BEHAVIOUR is an assumed contract of a preprocessor property
 # =====================================================================================
 _PP_COMMON = ['ws', 'symbol', 'keyword', 'paren', 'white_space', 'compiler_directive', 'compiler_directive_without_resetall', 'source_description',
